@@ -157,6 +157,11 @@ def run_hexary(prune, prior, rng):
     else:
         for kname, kmk in BAD_KINDS:
             record(f"at_root.root<{kname}>", (lambda kmk=kmk: t.at_root(kmk()).__enter__()), ("HAtRootGet", "BAD", b"\x01"), 1)
+    if not prune:
+        # the ref_count attribute of a non-pruning trie is refused (bare Exception in the source)
+        out = guard(lambda: t.ref_count)
+        if bad is None and (out is None or out.tag != 18):
+            bad = f"ref_count of a non-pruning trie: expected an Exception, got {out!r}"
     record("ctor(ref_count, prune=False)", lambda: HexaryTrie(backing, prune=False, ref_count={}), ("HNew", bytes(t.root_hash), False, True), 14)
     return ops, outs, bad
 
